@@ -9,6 +9,7 @@ from engine.vtime import PinnedClock, VTimedelta, real_timedelta
 
 SEC = 1_000_000
 Y1970, Y2100 = 0, 4_102_444_800 * SEC
+Y2000, Y2050 = 946_684_800 * SEC, 2_524_608_000 * SEC
 T0 = vtime.EPOCH_US  # 2024-01-01 in µs
 
 
